@@ -337,5 +337,150 @@ func netVerdict(ctx *Ctx, c c05Case, rr *RunRes) {
 				ctx.Res.Disagree(Violation{What: fmt.Sprintf("process %s executed %d tasks, the network model creates %d", nm, started[nm], clo[i]), Class: "c05.net", Witness: c})
 			}
 		}
+		if c.Dag.balanced() {
+			opAcceptance(ctx, c, rr, names, ins, src)
+		}
+	}
+}
+
+// opAcceptance: the channel operations the real run performed (hooks after every send and receive, task
+// acceptance and head-of-queue dequeue), taken per goroutine in program order, must be a run of the Lean model at
+// the granularity of channel operations (Model/NetFine.lean) that ends with every process returned. The model's
+// theorems quantify over all interleavings, so only the per-goroutine order is taken from the trace.
+func opAcceptance(ctx *Ctx, c c05Case, rr *RunRes, names, ins, src []string) {
+	idx := map[string]int{}
+	for i, nm := range names {
+		idx[nm] = i
+	}
+	// port name -> upstream index, per process; connections are identified by the pair of processes
+	portUp := map[string]map[string]int{}
+	nIn := map[string]int{}
+	for _, n := range c.Dag.Nodes {
+		if n.Kind != "proc" {
+			continue
+		}
+		m := map[string]int{}
+		seen := map[int]bool{}
+		for i, u := range n.Ins {
+			m[fmt.Sprintf("in%d", i)] = idx[u]
+			if seen[idx[u]] {
+				ctx.Res.Count("channel-ops=multi-edge(not in the model)")
+				return
+			}
+			seen[idx[u]] = true
+		}
+		if n.PIn == "@" {
+			m["p"] = idx[n.Name+"@feeder"]
+		} else if n.PIn != "" {
+			m["p"] = idx[n.PIn]
+		}
+		portUp[n.Name] = m
+		nIn[n.Name] = len(m)
+	}
+	outs := map[int][]int{} // consumers per node
+	for w, l := range ins {
+		if l == "-" {
+			continue
+		}
+		for _, u := range strings.Split(l, ",") {
+			var ui int
+			fmt.Sscan(u, &ui)
+			outs[ui] = append(outs[ui], w)
+		}
+	}
+	reader := map[string][]string{} // per process: recv ..., create, ...
+	fwd := map[string][]string{}    // per process / source: send ..., forward, ...
+	round := map[string]int{}
+	open := map[string]bool{}   // a dequeued task whose outputs are being sent
+	sentTo := map[string]map[int]bool{}
+	procOf := func(port string) string {
+		if i := strings.LastIndex(port, "."); i >= 0 {
+			return port[:i]
+		}
+		return port
+	}
+	for _, e := range rr.Trace {
+		switch e.Point {
+		case "ch.recv":
+			v := e.Args[0]
+			m, ok := portUp[v]
+			if !ok {
+				continue // sink, components outside the model
+			}
+			u, ok := m[e.Args[1]]
+			if !ok {
+				continue
+			}
+			reader[v] = append(reader[v], fmt.Sprintf("r:%d:%d", idx[v], u))
+			round[v]++
+			if round[v] == nIn[v] {
+				reader[v] = append(reader[v], fmt.Sprintf("c:%d", idx[v]))
+				round[v] = 0
+			}
+		case "proc.accept":
+			v := e.Args[0]
+			if _, ok := idx[v]; ok && nIn[v] == 0 {
+				reader[v] = append(reader[v], fmt.Sprintf("c:%d", idx[v])) // a process without in-ports: one task
+			}
+		case "proc.headdone":
+			v := e.Args[0]
+			if _, ok := idx[v]; !ok {
+				continue
+			}
+			if open[v] {
+				fwd[v] = append(fwd[v], fmt.Sprintf("f:%d", idx[v]))
+			}
+			open[v] = true
+		case "ch.sent":
+			sp, rp := e.Args[0], e.Args[1]
+			v := procOf(sp)
+			if strings.HasSuffix(sp, ".string_feeder") {
+				v += "@feeder"
+			}
+			vi, ok := idx[v]
+			wi, ok2 := idx[procOf(rp)]
+			if !ok || !ok2 {
+				continue // to the sink, or from a component outside the model
+			}
+			if nd := c.Dag.node(v); nd == nil || nd.Kind != "proc" {
+				// a source: every item is created, sent to each consumer, forwarded
+				if sentTo[v] == nil || sentTo[v][wi] || len(sentTo[v]) == len(outs[vi]) {
+					if sentTo[v] != nil {
+						fwd[v] = append(fwd[v], fmt.Sprintf("f:%d", vi))
+					}
+					sentTo[v] = map[int]bool{}
+					fwd[v] = append(fwd[v], fmt.Sprintf("c:%d", vi))
+				}
+				sentTo[v][wi] = true
+			}
+			fwd[v] = append(fwd[v], fmt.Sprintf("s:%d:%d", vi, wi))
+		}
+	}
+	threads := []string{}
+	for i, nm := range names {
+		nd := c.Dag.node(nm)
+		if nd != nil && nd.Kind == "proc" {
+			if open[nm] {
+				fwd[nm] = append(fwd[nm], fmt.Sprintf("f:%d", i))
+			}
+			threads = append(threads, strings.Join(append(reader[nm], fmt.Sprintf("t:%d", i)), ","), strings.Join(fwd[nm], ","))
+			continue
+		}
+		// sources
+		if sentTo[nm] != nil {
+			fwd[nm] = append(fwd[nm], fmt.Sprintf("f:%d", i))
+		} else if len(outs[i]) == 0 {
+			var k int
+			fmt.Sscan(src[i], &k)
+			for j := 0; j < k; j++ {
+				fwd[nm] = append(fwd[nm], fmt.Sprintf("c:%d", i), fmt.Sprintf("f:%d", i))
+			}
+		}
+		threads = append(threads, strings.Join(append(fwd[nm], fmt.Sprintf("t:%d", i)), ","))
+	}
+	resp := ctx.Drv.Ask("fine.accept", fmt.Sprint(len(names)), strings.Join(ins, ";"), strings.Join(src, ","), fmt.Sprint(c.Buf), strings.Join(threads, ";"))
+	ctx.Res.Count("channel-ops=checked")
+	if !strings.HasPrefix(resp, "accepted ") || strings.Contains(strings.SplitN(resp, "term=", 2)[1][:2*len(names)-1], "0") {
+		ctx.Res.Disagree(Violation{What: fmt.Sprintf("the channel operations of the real run are not a complete run of the channel-operation model: %s (threads %v)", resp, threads), Class: "c05.ops", Witness: c})
 	}
 }
